@@ -60,8 +60,15 @@ def run_case(ck, case):
     fn = ck.runner.function(MODS.get(case.test, case.meta.get('module')), case.meta.get('qual', case.test))
     owned = dict(case.owned)
     for k, v in case.kwargs.items():
-        if isinstance(v, (list, dict)) and k in case.pat:
+        if isinstance(v, (list, dict)):
             owned[k] = v
+            if isinstance(v, list):
+                for j, item in enumerate(v):
+                    if isinstance(item, (dict, list)):
+                        owned[f'{k}[{j}]'] = item
+    for i, v in enumerate(case.args):
+        if isinstance(v, (list, dict)):
+            owned[f'arg{i}'] = v
     out = ck.runner.run(fn, case.args, case.kwargs, time_features=case.features, owned=owned, parse_time=case.parse_time)
     ck.count(1, distinct=('case', case.test, case.label, out.kind, None if out.kind == 'return' else out.exc.tname))
     return out
